@@ -1287,6 +1287,10 @@ BENIGN = [
          old='    auto& accumulator0 = accumulators[0];\n    for (size_t i = 1; i < accumulators.size(); ++i)\n    {\n        accumulator0 += accumulators[i];\n    }\n    return (accumulator0 /= samples);', new='    for (size_t k = accumulators.size(); k > 1; --k)\n    {\n        accumulators[0] += accumulators[k - 1];\n    }\n    accumulators[0] /= samples;\n    return accumulators[0];'),
     dict(property="C20", name="percentile-select-once-second-selection", file="include/nano/core/stats.h", tu="src/wlearner/util.cpp",
          old='    if (lpos == rpos)\n    {\n        return from_position(lpos);\n    }\n    else\n    {\n        const auto lvalue = from_position(lpos);\n        const auto rvalue = from_position(rpos);\n        return (lvalue + rvalue) / 2;\n    }', new='    const auto left   = from_position(lpos);\n    const auto lvalue = static_cast<double>(*left);\n    if (lpos == rpos)\n    {\n        return lvalue;\n    }\n    else\n    {\n        const auto rvalue = static_cast<double>(*std::next(left));\n        return (lvalue + rvalue) / 2;\n    }', more=[('        std::nth_element(begin, middle, end);\n        return static_cast<double>(*middle);', '        std::nth_element(begin, middle, end);\n        if (std::next(middle) != end)\n        {\n            std::nth_element(std::next(middle), std::next(middle), end);\n        }\n        return middle;'), ('        std::advance(middle, pos);\n        return static_cast<double>(*middle);', '        std::advance(middle, pos);\n        return middle;')]),
+    dict(property="C10", name="hinge-midpoint-other-spelling", file="src/wlearner/hinge.cpp",
+         old="const auto threshold = 0.5 * (ivalue1.first + ivalue2.first);", new="const auto threshold = ivalue1.first + (ivalue2.first - ivalue1.first) / 2.0;"),
+    dict(property="C10", name="stump-midpoint-other-spelling", file="src/wlearner/stump.cpp",
+         old="cache.m_threshold       = 0.5 * (ivalue1.first + ivalue2.first);", new="cache.m_threshold       = (ivalue1.first + ivalue2.first) / 2.0;"),
     dict(property="C07", name="get-descent-test-inlined", file="src/lsearchk.cpp",
          old="    if (!state.has_descent(descent))", new="    if (const auto dg0 = state.dg(descent); !(dg0 < 0.0))"),
     dict(property="C07", name="lemarechal-swap-operands", file="src/lsearchk/lemarechal.cpp",
